@@ -29,6 +29,15 @@ end T
 
 abbrev Path := List (T × Nat)
 
+namespace T
+/-- is the i-th child link of the node a name (a persisted node that `follow` has to load)? -/
+def flagAt : T → Nat → Bool
+  | last p _, 0 => p
+  | cons p _ _ _ _, 0 => p
+  | cons _ _ _ _ r, i+1 => flagAt r i
+  | _, _ => false
+end T
+
 namespace Cursor
 
 /-- `Min` — descend through first links from the top node of the path -/
@@ -131,6 +140,37 @@ where
 /-- `SeekIter` (repaired): seek with `Ceil`, then emit from every path entry, deepest first -/
 def seekIter (fuel : Nat) (root : T) (k : Nat) : List (Nat × Nat) :=
   ((ceil k fuel [(root, 0)]).map fun (node, i) => seekRow node i).flatten
+
+/-! ## what a move reads from the store -/
+
+/-- the path from the root downwards, as (parent, index, child) steps through name links: the
+    children `follow` had to load -/
+def loadedOn : Path → List T
+  | (c, _) :: (n, j) :: rest => (if flagAt n j then [c] else []) ++ loadedOn ((n, j) :: rest)
+  | _ => []
+
+/-- number of leading positions (from the root) on which two paths hold the same node -/
+def commonFromRoot : List (T × Nat) → List (T × Nat) → Nat
+  | (a, _) :: as, (b, _) :: bs => if a = b then commonFromRoot as bs + 1 else 0
+  | _, _ => 0
+
+/-- the nodes a move loads: those on the new path, below the part it shares with the old path,
+    that hang on name links (nodes already on the path are held by pointer and not read again) -/
+def newLoads (old new : Path) : List T :=
+  let keep := commonFromRoot old.reverse new.reverse
+  loadedOn (new.take (new.length - keep) ++ (new.drop (new.length - keep)).take 1)
+
+/-- the nodes `Ceil` loads on its way down (it may leave them again when the subtree is exhausted) -/
+def ceilLoads (k : Nat) : Nat → Path → List T
+  | 0, _ => []
+  | _, [] => []
+  | fuel+1, (node, _) :: rest =>
+      let i := lowerBound k node
+      let c := linkAt node i
+      let down := if c.isNil then [] else (if flagAt node i then [c] else []) ++ ceilLoads k fuel ((c, 0) :: (node, i) :: rest)
+      match entryAt node i with
+      | some (k', _) => if k' = k then [] else down
+      | none => down
 
 end Cursor
 end Mast
